@@ -1,7 +1,7 @@
 SPECIFICATION AdmSpec
 CONSTANTS
   Root = "koordinator-root-quota"
-  Dims = {"cpu", "memory"}
+  Dims = {"cpu", "memory", "gpu"}
   CheckFigures = FALSE
 \* property invariants are listed as CONSTRAINTs (before Report): a recorded state that violates one is not
 \* explored further, so its segment never reaches SegDone (= rejected) while TLC goes on with the other segments
